@@ -48,7 +48,7 @@ const (
 )
 
 var allKeys = [][]byte{[]byte("a"), []byte("b"), {}, []byte("c"), []byte("aa"), []byte("d"), []byte("e")} // the empty key is legal
-var allVals = [][]byte{[]byte("v1"), []byte("v2"), []byte("w"), {}}
+var allVals = [][]byte{[]byte("v1"), []byte("v2"), []byte("w"), {}, core.NilValue} // incl. the untyped nil (negative-caching marker)
 var allIDs = [][]byte{[]byte("h1"), []byte("h2"), []byte("h3")}
 
 const hugeBytes = int64(1) << 40
@@ -359,7 +359,7 @@ func asBytes(v interface{}, ok bool) ([]byte, bool) {
 	if !ok {
 		return nil, false
 	}
-	b, isB := v.([]byte)
+	b, isB := core.FromValue(v)
 	if !isB {
 		return nil, false
 	}
@@ -437,12 +437,13 @@ func (comp) Run(h *core.History, scratch string) *core.Result {
 	ch := make(chan invocation, 256)
 	mkHandler := func(id string) func(key []byte, value interface{}) {
 		return func(key []byte, value interface{}) {
-			b, ok := value.([]byte)
+			b, ok := core.FromValue(value)
 			ch <- invocation{id: id, key: string(key), val: b, valOK: ok}
 		}
 	}
 
 	for i, op := range h.Ops {
+		res.Scribble() // the key buffers handed to the previous call are reused by their caller
 		a := op.Parsed()
 		var toks []string
 		before := keyStrings(cache.Keys())
@@ -455,7 +456,7 @@ func (comp) Run(h *core.History, scratch string) *core.Result {
 		switch op.Code {
 		case opPut:
 			k, v, sz := a[0].Bytes(), a[1].Bytes(), a[2].I64()
-			evicted := cache.Put(k, v, int(sz))
+			evicted := cache.Put(res.CallerKey(k), core.ToValue(v), int(sz))
 			retPut = evicted
 			toks = append(toks, core.Lbl(1, core.Bool(evicted)))
 			prevSize, hadPrev := int64(0), false
@@ -488,7 +489,7 @@ func (comp) Run(h *core.History, scratch string) *core.Result {
 			}
 		case opHasOrAdd:
 			k, v, sz := a[0].Bytes(), a[1].Bytes(), a[2].I64()
-			has, added := cache.HasOrAdd(k, v, int(sz))
+			has, added := cache.HasOrAdd(res.CallerKey(k), core.ToValue(v), int(sz))
 			retHas, retAdded = has, added
 			toks = append(toks, core.Lbl(2, core.Bool(has)), core.Lbl(3, core.Bool(added)))
 			rHas, rAdded := ref.hasOrAdd(string(k), v, sz)
